@@ -362,7 +362,7 @@ def frame_universe(ctx, extra_pools=()):
             lays = list(zoo.layouts_for(dts[:m]))
             for i, layout in enumerate(lays):
                 if ctx.tier == 'thorough':
-                    level = 'full'
+                    level = 'full' if pname == 'I' else 'mid'      # the slice grid does not depend on dtypes
                 elif pname == 'I' and i == len(lays) // 2:
                     level = 'full'
                 elif pname == 'I' and i in (0, len(lays) - 1):
@@ -389,7 +389,7 @@ def key_plan(ctx, m, level):
         rot += 1
         if level == 'full' and ck.kind in ('none', 'all'):
             yield ck, ROW_KEYS
-        elif ctx.tier == 'thorough':
+        elif ctx.tier == 'thorough' and ck.kind != 'slice':
             yield ck, [NONE, ROW_KEYS[rot % len(ROW_KEYS)]]
         else:
             yield ck, [ROW_KEYS[rot % len(ROW_KEYS)]]
@@ -574,7 +574,7 @@ def assign_unit_cases(ctx):
         f = build_frame(dts, nrows, layout)
         flit, oflit = mframe_lit(f), oframe_lit(f)
         for ck, rks in key_plan(ctx, m, level):
-            for rk in (rks[:1] if ctx.tier == 'quick' else rks[:3]):
+            for rk in (rks[:1] if ctx.tier == 'quick' else rks[:2]):
                 cps, rps = ck.positions(m), rk.positions(nrows)
                 if ck.kind == 'none':
                     cps = list(range(m))
@@ -585,7 +585,7 @@ def assign_unit_cases(ctx):
                 rot += 1
                 key = rk.py() if ck.kind == 'none' else (rk.py(), ck.py())
                 vals = list(unit_values(rk, ck, rps, sorted(cps), rot))
-                if ctx.tier == 'quick' and len(vals) > 2:
+                if (ctx.tier == 'quick' or ck.kind == 'slice') and len(vals) > 2:
                     vals = [vals[0], vals[1 + rot % (len(vals) - 1)]]
                 for vname, value, aval, sliceable in vals:
                     if vname != 'element' and ck.kind in ('list', 'array') and sorted(cps) != cps:
@@ -993,7 +993,7 @@ def astype_cases(ctx):
             ok_targets = [d for d in ASTYPE_TARGETS if all(astype_ok(dts[j], d) for j in cps)]
             if not (pname == 'F' or level != 'masks' or ctx.tier == 'thorough'):
                 ok_targets = [ok_targets[rot % len(ok_targets)]]
-            for dst, consolidate in [(d, c) for d in ok_targets for c in ((False, True) if ctx.tier == 'thorough' or rot % 4 == 0 else (False,))]:
+            for dst, consolidate in [(d, c) for d in ok_targets for c in ((False, True) if rot % 4 == 0 else (False,))]:
                 before = snapshot(f)
                 out, err = call(lambda: f.astype[key](dst, consolidate_blocks=consolidate))
                 after = snapshot(f)
@@ -1166,12 +1166,12 @@ def relabel_rename_cases(ctx):
 
 
 # ---------------------------------------------------------------------------------------------- Series
-def series_keys(n, ctx):
-    if ctx.tier == 'thorough':
+def series_keys(n, ctx, full_cube=False):
+    if ctx.tier == 'thorough' and full_cube:
         vals = [None] + list(range(-6, 7))
         out = [K('slice', (a, b, c)) for a, b, c in itertools.product(vals, vals, (None, 1, 2, 3, -1, -2, -3))]
     else:
-        out = list(slice_grid(n, 4))
+        out = list(slice_grid(n, 4 if ctx.tier == 'quick' else 6))
     out += [ALL] + [K('int', i) for i in range(-n, n)]
     seqs = [p for r in range(0, n + 1) for p in itertools.permutations(range(n), r)]
     if len(seqs) > 24:
@@ -1190,7 +1190,7 @@ def series_cases(ctx):
             sr = sf.Series(column(dt, 2, n), index=sf.Index(ROW_LABELS[:n]), name='sn')
             slit = lit.oseries(sr)
             labels = list(sr.index.values)
-            for k in series_keys(n, ctx):
+            for k in series_keys(n, ctx, full_cube=(dt == I8)):
                 ps = k.positions(n)
                 if ps is None:
                     continue
@@ -1213,7 +1213,7 @@ def series_cases(ctx):
                         sv = sf.Series([400 + i for i in range(len(idx))], index=idx)
                         ops.append(('assign', ('series', sv), f'(ARows {lit.vlist(idx)} {lit.vlist(lit.array_vals(sv.values))})'))
                         ops.append(('assign', ('apply', None), None))
-                    for op, val, aval in (ops if ctx.tier == 'thorough' else [ops[0], ops[1], ops[2 + rot % (len(ops) - 2)]]):
+                    for op, val, aval in (ops if ctx.tier == 'thorough' and (k.kind != 'slice' or form == 'iloc') else [ops[0], ops[1], ops[2 + rot % (len(ops) - 2)]]):
                         before = snapshot(sr)
                         if op in ('drop', 'mask'):
                             out, err = call(lambda: sel(getattr(sr, op)))
@@ -1445,6 +1445,59 @@ def kernel_cases(ctx):
                        tags={'kernel': 'cols_to_slice'}, nontrivial=len(bundle) > 1)
 
 
+def walk_kernel_cases(ctx):
+    """kernel level (plain-Python inputs and outputs, private names): container_util.key_to_ascending_key and
+    TypeBlocks._key_to_block_slices(key, retain_key_order=False) against the models' ascending_key / block_slices_for"""
+    from static_frame.core.container_util import key_to_ascending_key
+
+    def to_k(obj):
+        if isinstance(obj, slice):
+            return K('slice', (obj.start, obj.stop, obj.step))
+        if isinstance(obj, np.ndarray) and obj.dtype == bool:
+            return K('mask', [bool(x) for x in obj])
+        if isinstance(obj, (list, np.ndarray)):
+            return K('list', [int(x) for x in obj])
+        if isinstance(obj, (int, np.integer)):
+            return K('int', int(obj))
+        raise ValueError(obj)
+
+    for n in range(0, 5):
+        keys = small_keys(n, ctx.tier, ctx.rng, slices=True)
+        for k in keys:
+            if k.kind == 'all':
+                continue
+            out, err = call(lambda: key_to_ascending_key(k.py(), n))
+            ctx.count('kernel:key_to_ascending_key:' + k.kind)
+            if err is not None:
+                continue
+            yield Case('kernel:key_to_ascending_key', {'call': 'container_util.key_to_ascending_key', 'key': k.desc(), 'size': n, 'observed': to_k(out).desc()},
+                       m=f'ckey_eqb (ascending_key {k.coq()} {lit.z(n)} {lit.b(k.kind in ("array", "mask"))}) {to_k(out).coq()}',
+                       tags={'kernel': 'key_to_ascending_key'}, nontrivial=k.kind != 'int')
+    for pname, dts, layout, level in frame_universe(ctx):
+        m = len(dts)
+        if pname != 'I' or m == 0:
+            continue
+        f = build_frame(dts, 2, layout)
+        tlit = tb_lit(f)
+        for ck, _ in key_plan(ctx, m, level):
+            if ck.kind == 'none':
+                continue
+
+            def run():
+                out = []
+                for bi, tgt in f._blocks._key_to_block_slices(ck.py() if ck.kind != 'all' else None, retain_key_order=False):
+                    out.append((bi, tgt if isinstance(tgt, slice) else slice(tgt, tgt + 1)))     # an integer target = a one-column slice in the model
+                return out
+            out, err = call(run)
+            ctx.count('kernel:key_to_block_slices:' + ck.kind)
+            obs = res_lit(out, err, lambda o: lit.lst([f'({lit.z(bi)}, {lit.slice_(sl)})' for bi, sl in o]))
+            yield Case('kernel:_key_to_block_slices(ascending)',
+                       {'call': 'TypeBlocks._key_to_block_slices(key, retain_key_order=False)', 'layout': zoo.layout_str(layout), 'key': ck.desc(),
+                        'observed': 'raises ' + type(err).__name__ if err is not None else [[bi, [sl.start, sl.stop, sl.step]] for bi, sl in out]},
+                       m=f'res_same targets_eqb (block_slices_for false {tlit} {ck.coq()}) {obs}',
+                       tags={'kernel': 'key_to_block_slices'}, nontrivial=bool(out))
+
+
 IMPORTS = ('Require Import SF.Prelude SF.PySlice SF.Dtype SF.Value SF.PyDyn SF.Blocks SF.UpdateSpec SF.BlocksUpdate SF.UpdateFrame '
            'Gen.Gen_util Gen.Gen_type_blocks.\n'
            'Definition c08_resolve (a b : dtype) : dtype := match resolve_dtype (PDtype a) (PDtype b) with PDtype r => r | _ => DObj end.')
@@ -1452,6 +1505,7 @@ IMPORTS = ('Require Import SF.Prelude SF.PySlice SF.Dtype SF.Value SF.PyDyn SF.B
 
 def cases(ctx):
     yield from kernel_cases(ctx)
+    yield from walk_kernel_cases(ctx)
     yield from drop_mask_cases(ctx)
     yield from assign_unit_cases(ctx)
     yield from assign_labelled_cases(ctx)
